@@ -139,6 +139,7 @@ func main() {
 	maxGor := flag.Int("maxgoroutines", 4000, "recycle the process when this many goroutines have leaked")
 	full := flag.Bool("full", false, "include scenario and history in every outcome")
 	samples := flag.Int("samples", 3, "include scenario+history for the first n runs")
+	flag.BoolVar(&debugPolicy, "debug", false, "replay: record the policy state after every policy step in the history")
 	flag.Parse()
 	runtime.GOMAXPROCS(2)
 	pd := props[*prop]
@@ -179,7 +180,7 @@ func main() {
 		}
 		o.Scenario = rf.Scenario
 		if rd != nil {
-			o.History = renderHistory(rd, 400)
+			o.History = renderHistory(rd, 4000)
 		}
 		enc.Encode(o)
 		return
